@@ -621,7 +621,8 @@ class SInt:
             return True
         return ENGINE.branch(self.t != 0)
 
-    __hash__ = None
+    def __hash__(self):
+        raise Unmodelled("hash() of a symbolic value (dict/set key)")
 
     def __index__(self):
         raise Unmodelled("index(SInt): C-level use of a symbolic int")
@@ -663,18 +664,44 @@ class SRatio:
 
 
 def concretize(x, limit=64):
-    """Fork over the feasible values of a symbolic int (bounded by `limit` values)."""
+    """Fork over the feasible values of a symbolic int (at most `limit` values).
+
+    Recorded as a *value decision* so that re-execution is deterministic: ("val", v) pins the
+    value, ("valx", [v1, ...]) means "any feasible value not yet explored"."""
     if not isinstance(x, SInt):
         return x
-    e = ENGINE
     if x.lo is not None and x.lo == x.hi:
         return x.lo
-    n = 0
-    while True:
-        m = e.get_model()
-        v = m.eval(x.t, model_completion=True).as_signed_long()
-        if e.branch(x.t == v):
+    e = ENGINE
+    for v in vars_of(x.t):
+        e.tainted.add(v)
+    i = len(e.decisions)
+    excluded = []
+    if i < len(e.prefix):
+        d = e.prefix[i]
+        if not isinstance(d, tuple):
+            raise EngineError("non-deterministic re-execution (value decision expected) at %d" % i)
+        if d[0] == "val":
+            v = d[1]
+            e._record(d, x.t)
+            c = x.t == v
+            e.solver.add(c)
+            e.pc.append(c)
+            e.model = None
             return v
-        n += 1
-        if n > limit:
-            raise Unmodelled("concretize: more than %d feasible values" % limit)
+        excluded = list(d[1])
+        for ex in excluded:
+            c = x.t != ex
+            e.solver.add(c)
+            e.pc.append(c)
+        e.model = None
+    if len(excluded) >= limit:
+        raise Unmodelled("concretize: more than %d feasible values" % limit)
+    m = e.get_model()  # PathAbort when no further value is feasible
+    v = m.eval(x.t, model_completion=True).as_signed_long()
+    e.worklist.append((e.decisions + [("valx", excluded + [v])], e.hashes + [x.t.hash()]))
+    e._record(("val", v), x.t)
+    c = x.t == v
+    e.solver.add(c)
+    e.pc.append(c)
+    return v
